@@ -31,6 +31,9 @@ class Obs(hooks.Observer):
         self.res, self.f, self.cfg = res, f, cfg
         self.trace = []
         self.points = {}
+        # quiet histories: the monitors only look at the final state, so that their own read-outs (point lists, interpolation calls)
+        # cannot refresh state the library keeps between refinement steps
+        self.quiet = False
 
     def scheme_contract(self, c, where):
         cs = c.combischeme
@@ -46,14 +49,28 @@ class Obs(hooks.Observer):
 
     def after_refine(self, c):
         super().after_refine(c)
+        if self.quiet:
+            return
         where = "after refine #%d" % self.steps
         self.points = dimwise.check_nested_combination(self.res, c, where)
         self.scheme_contract(c, where)
         self.trace.append({"step": self.steps, "lmax": list(c.lmax), "grids": len(c.scheme), "union_points": len(self.points),
                            "intervals": [c.refinement.get_refinement_container_for_dim(k).size() for k in range(c.dim)]})
 
+    def final_state(self, c):
+        where = "final state (after %d refinements)" % self.steps
+        self.points = dimwise.check_nested_combination(self.res, c, where)
+        self.scheme_contract(c, where)
+        pts = list(self.points)
+        if len(pts) > 1500:
+            pts = random.Random(self.steps).sample(pts, 1500)
+        dimwise.check_interpolation(self.res, c, pts, self.f, where)
+        self.res.count("final_state_checks")
+
     def after_evaluate(self, c, r):
         super().after_evaluate(c, r)
+        if self.quiet:
+            return
         where = "after evaluation #%d" % self.evals
         if self.evals == 1:
             self.points = dimwise.check_nested_combination(self.res, c, where)
@@ -103,10 +120,15 @@ def run_case(case, res):
     f = hooks.VFunction([hooks.comp_hash(case["seed"]), hooks.comp_smooth(case["seed"], d)])
     err = hooks.RandErr(cfg["errseed"], cfg["profile"], d, cfg["a"], cfg["b"])
     obs = Obs(res, f, cfg, err)
+    obs.quiet = rng.random() < 0.3
+    cfg["quiet_until_final_state"] = obs.quiet
     c = dimwise.build(cfg, f, obs)
     dimwise.maybe_prior_run(rng, c, cfg, err, res)
     dimwise.run(c, cfg, err)
     dimwise.maybe_restart(rng, c, cfg, err, obs, res)
+    if obs.quiet:
+        res.count("quiet_histories")
+        obs.final_state(c)
     grid_interpolation(res, rng, c, f)
     deepest = obs.deepest(c)
     res.hash = dimwise.structure_digest(c)
